@@ -187,6 +187,16 @@ def work_filter(job: Tuple[str, str, Tuple[str, ...]]) -> Dict[str, Any]:
         if r1.returncode or r2.returncode:
             res["violations"].append({"what": f"{res['case']}: compile failed: {r1.stderr[-150:]} {r2.stderr[-150:]}", "payload": {"kind": "cli", "files": schema(()), "lang": lang, "subset": list(subset)}, "confirmed": True, "info": {"kind": "filter"}})
             return res
+        # the list may be written with blanks around the commas (and a trailing comma): the same names, the same output
+        if len(subset) >= 1:
+            for si, spelled in enumerate((", ".join(subset), " " + " , ".join(subset) + " ", ",".join(subset) + ",")):
+                alt = sc.path(f"filt_sp{si}")
+                r3 = compile_cli(sc.dir, "main.bitproto", lang, alt, ["-O", "-q", "--endian", endian, "-F", spelled])
+                res["obligations"] += 1
+                same = r3.returncode == 0 and all(open(os.path.join(alt, f)).read() == open(os.path.join(filt, f)).read() for f in os.listdir(filt) if f.startswith("main_bp"))
+                if not same:
+                    res["violations"].append(_fv(res, f"-F {spelled!r} does not give the output of -F {','.join(subset)!r} (exit {r3.returncode})", lang, subset))
+                    break
         if lang == "c":
             fa, fb = c_functions(open(os.path.join(full, "main_bp.c")).read()), c_functions(open(os.path.join(filt, "main_bp.c")).read())
             enc = lambda n: [f"Encode{CNAME[n]}", f"Decode{CNAME[n]}"]
